@@ -372,6 +372,84 @@ def internal_debug_assertion(F, b, bi, untainted=True):
     return True
 
 
+def hostile_index(F, b, bi):
+    """the indexing site in block `bi`: its position is computed from a field of a decoded structure (a parameter of one of the
+    UNTRUSTED_TYPES other than the receiver under construction, or the result of a deserialisation) and no comparison anywhere
+    in the function relates a value derived from the same field to a length (`len()`, slice metadata) - True only then"""
+    fl = flow_of(b)
+    t = b.blocks[bi]['term']
+    if t['k'] == 'assert':
+        if t['cond']['k'] == 'const':
+            return False
+        idx = None
+        for (dbb, i_, kind, data, dproj) in fl.defs.get(t['cond']['p']['l'], []):
+            if kind == 'assign' and data['k'] == 'bin' and data['op'] in ('Lt', 'Le'):
+                idx = data['ops'][0]
+        if idx is None:
+            return False
+    elif t['k'] == 'call' and len(t.get('args', [])) >= 2:
+        idx = t['args'][1]
+    else:
+        return False
+
+    def taint_roots(op):
+        """(hostile field origins, everything seen) behind an operand, through arithmetic and calls"""
+        seen, roots, work, steps = set(), set(), [op], 0
+        while work and steps < 300:
+            steps += 1
+            o_ = work.pop()
+            if o_['k'] == 'const':
+                continue
+            for o in fl.origins(o_):
+                k = (o.kind, str(o.key), o.bb, tuple(o.path))
+                if k in seen:
+                    continue
+                seen.add(k)
+                if o.kind == 'param':
+                    ty = b.local_ty(o.key)
+                    own = b.path.split('::{')[0].rsplit('::', 1)[0]
+                    if any(u in ty for u in UNTRUSTED_TYPES) and [e for e in o.path if not e.startswith('@')] and not (o.key == 1 and own and own in ty):
+                        roots.add((o.key, tuple(e for e in o.path if not e.startswith('@'))))
+                elif o.kind in ('call', 'mutcall') and o.bb is not None:
+                    c = str(o.key)
+                    if 'deserialize' in c or 'from_reader' in c:
+                        roots.add(('de', c))
+                    for a in b.blocks[o.bb]['term'].get('args', []):
+                        work.append(a)
+        return roots, seen
+    roots, _ = taint_roots(idx)
+    if not roots:
+        return False
+    # any comparison that relates one of those fields to a length?
+    for ci in fl.cfg.reachable():
+        for st in b.blocks[ci]['stmts']:
+            rv = st['rv']
+            if rv['k'] != 'bin' or rv['op'] not in ('Lt', 'Le', 'Gt', 'Ge', 'Eq', 'Ne'):
+                continue
+            if b.blocks[ci]['term']['k'] == 'assert' and ci == bi:
+                continue        # the bounds check itself
+            sides = [taint_roots(x) for x in rv['ops']]
+            for me, other in ((0, 1), (1, 0)):
+                if sides[me][0] & roots:
+                    if any(k[0] in ('call',) and (k[1].endswith('::len') or k[1].endswith('::is_empty')) for k in sides[other][1]) or _is_len_rvalue(fl, rv['ops'][other]):
+                        return False
+        t2 = b.blocks[ci]['term']
+        if t2['k'] == 'call' and (callee(t2) or '').endswith(('::get', '::get_mut', '::checked_sub', '::min')) and ci != bi:
+            for a in t2['args'][1:]:
+                if taint_roots(a)[0] & roots:
+                    return False        # a checked accessor on the same value: the relation to the length is made there
+    return True
+
+
+def _is_len_rvalue(fl, op):
+    if op['k'] == 'const' or op['p']['proj']:
+        return False
+    for (dbb, i_, kind, data, dproj) in fl.defs.get(op['p']['l'], []):
+        if kind == 'assign' and data['k'] in ('len', 'un') and str(data.get('op', 'len')).lower() in ('len', 'ptrmetadata'):
+            return True
+    return False
+
+
 _BASE = None
 
 
@@ -484,6 +562,13 @@ def run_entries(ctx, rid, entries, text, floor_bodies=3):
                 ctx.undecided(rid, '%s: %d debug-only assertion(s) beyond the tabled %d (%d on internal state, %d on state a decoded input flows into): '
                               'that their conditions hold for every input is not decided (%s)' % (
                                   top, len(extra), mx, len(inner), len(extra) - len(inner), '; '.join(d for _, _, d in extra[:3])))
+            elif top not in baseline_functions() and kind in ('index', 'assert:BoundsCheck') and any(hostile_index(F, b, bi) for (b, bi, d) in lst):
+                # new code, but this much is decided: the position comes out of a decoded structure and is never compared with
+                # the length of what it indexes - a crafted file chooses it freely
+                hb, hbi, hd = [x for x in lst if hostile_index(F, x[0], x[1])][0]
+                ctx.bad(rid, '%s:%s:hostile-index' % (top, kind),
+                        '%s indexes with a value taken from a decoded structure (%s) that is never compared with the length of the indexed collection: '
+                        'a crafted input makes it panic' % (top, hd), term_loc(hb, hbi))
             elif top not in baseline_functions():
                 # a function that did not exist when the table was written (new helper, new type's method): its sites have not
                 # been judged by anyone - say so instead of calling them violations (a site added to a function that DID exist
